@@ -280,13 +280,34 @@ def compare_result(result, loaded, opts, rec, ctx, tag="result"):
     return True
 
 
+def numeric_parameter_labels(jc):
+    """The same case with every parameter label replaced by a numeric-looking one (01, 02, 1.10, ...): labels are text,
+    whatever they look like, in every parameter file a result folder holds."""
+    import json
+
+    labels = sorted(jc["parameters"], key=len, reverse=True)
+    names = ["01", "02", "1.10", "1.1", "007", "3", "4.50", "12", "0.5", "10", "2.0", "6", "08", "9.90", "11", "13", "14", "15", "16", "17", "18", "19"]
+    if len(labels) > len(names):
+        return jc
+    m = dict(zip(labels, names))
+    text = json.dumps(jc)
+    for old in labels:
+        text = text.replace(json.dumps(old), json.dumps("\u0000" + m[old])).replace("$" + old, "$\u0000" + m[old])
+    out = json.loads(text.replace("\\u0000", "").replace("\u0000", ""))
+    out["features"] = dict(out.get("features", {}), numeric_parameter_labels=True)
+    return out
+
+
 def run_result(rng, rec, log, scratch, idx):
     from glotaran.io import SAVING_OPTIONS_DEFAULT, SAVING_OPTIONS_MINIMAL, SavingOptions, load_result, save_result
     from glotaran.optimization.optimize import optimize
 
     case = c02.fix_groups(S.gen_case(rng, features={"nnls": False}, label_pool=str(rng.choice(["plain", "dotted", "underscore", "case"]))))
     jc = S.jsonable_case(case)
-    opt_name, opts = [("default", SAVING_OPTIONS_DEFAULT), ("minimal", SAVING_OPTIONS_MINIMAL), ("no-report", SavingOptions(report=False))][int(rng.integers(3))]
+    opt_name, opts = [("default", SAVING_OPTIONS_DEFAULT), ("minimal", SAVING_OPTIONS_MINIMAL), ("no-report", SavingOptions(report=False)),
+                      ("tsv-parameters", SavingOptions(parameter_format="tsv"))][int(rng.integers(4))]
+    if rng.integers(3) == 0:
+        jc = numeric_parameter_labels(jc)
     target_kind = str(rng.choice(["absolute", "relative"]))
     ctx = dict(jc, saving_options=opt_name, target=target_kind)
     try:
